@@ -12,6 +12,7 @@ pub mod c13;
 pub mod c14;
 pub mod c15;
 pub mod c16;
+pub mod c17;
 pub mod common;
 pub mod par;
 
@@ -42,6 +43,7 @@ pub fn all() -> Vec<Prop> {
         Prop { id: "C14", level: "exploration", run: c14::run, replay: c14::replay },
         Prop { id: "C15", level: "exploration", run: c15::run, replay: c15::replay },
         Prop { id: "C16", level: "fault_enumeration", run: c16::run, replay: c16::replay },
+        Prop { id: "C17", level: "exploration", run: c17::run, replay: c17::replay },
     ]
 }
 
